@@ -22,6 +22,7 @@ var effectFreePrefixes = []string{
 	"(error).Error", "encoding/hex.", "encoding/binary.",
 	"(encoding/binary.littleEndian).Uint", "(encoding/binary.bigEndian).Uint",
 	"github.com/XiaoMi/Gaea/stats", "(*github.com/XiaoMi/Gaea/stats",
+	"math/rand.Seed", "math/rand.Intn", "math/rand.Int", "math/rand.Float", "math/rand.New",
 	"runtime.", "os.Getenv", "reflect.TypeOf", "reflect.DeepEqual",
 	"github.com/XiaoMi/Gaea/core/errors.", "(*github.com/XiaoMi/Gaea/mysql.SQLError).Error",
 	"github.com/XiaoMi/Gaea/mysql.NewError", "github.com/XiaoMi/Gaea/mysql.NewDefaultError", "github.com/XiaoMi/Gaea/mysql.NewErrf",
